@@ -109,6 +109,11 @@ type SignReq struct {
 	In, Out string
 	// IfUnsigned mirrors --if-unsigned
 	IfUnsigned bool
+	// PriorAttempts (SignViaServer only): that many earlier upload attempts are
+	// played first - the client builds a request from the transformer, the
+	// whole body is consumed, the server answers with a temporary failure - the
+	// way cmdline/remotecmd doRequest moves on to the next server.
+	PriorAttempts int
 }
 
 var ErrSkippedSigned = errors.New("skipped: already signed")
